@@ -56,7 +56,7 @@ PROPS = {
              "other algorithm and parameter-set ids (0, unknown, +id, 0id, 2^64-1, 2^64, -1, 0x1), time-stamp edge cases, "
              "64 KiB / 1 MiB lines, random bytes; each observed with right/wrong/empty password, list, list-full, add, "
              "update, remove; ten kinds of unsupported / invalid files x both extensions also through the agent's request "
-             "interface (list, list-full, add, authenticate, update, remove).",
+             "interface (list, list-full, add, authenticate, update, remove). Round 6: fields that are non-empty text but decode to nothing (CR only), judged also by an independent reading of the schema.",
         trusted=[T_CRYPTO, T_FS],
         assumptions=["file contents are those of regular files (FIFOs/devices would block open)"],
     ),
@@ -80,7 +80,7 @@ PROPS = {
              "check enabled by default / by flag, disabled by flag / by environment, on valid, duplicate-pair, no-admin, "
              "stray-file and empty directories: exit status and directory digest vs the gate model. Agent level: the staged "
              "schedules of C11 (internal upgrade racing set-admin / remove / add of the same user, a third of them with "
-             "2 MiB of auxiliary lines behind the records): the idle store passes the check, one file per user.",
+             "2 MiB of auxiliary lines behind the records): the idle store passes the check, one file per user. Round 5: entry names with embedded line feeds and control bytes.",
         trusted=[T_CRYPTO, T_FS],
         partial=["that main.go's commands are wired to the gate as modelled (Model/Cli.lean; refuses_invalid_directory, "
                  "proceeds_only_if_valid_or_disabled) is decided by the run: the built binary on valid / invalid directories"],
@@ -126,7 +126,7 @@ PROPS = {
              "the base account's password, and what a token so obtained can do; concurrent phase: an administrator "
              "lists while an ordinary user with a same-length session tries list / set-admin / update-other / add from "
              "four goroutines for 300 ms (3 s), also in a race-detector build; 13 management requests through the "
-             "running binary.",
+             "running binary. Round 5/6: odd scenarios run with local hash upgrades on and the target record kept upgradeable (update queue flushed around every request); concurrent right- and wrong-password checks each judged on their own.",
         trusted=["encoding/json and net/http are transports: the model receives the decoded request fields", T_CRYPTO,
                  "AES-GCM as ideal AEAD (C07)"],
         partial=["the running binary is exercised with a small request set only (suite vbin: 13 management requests over "
@@ -148,7 +148,7 @@ PROPS = {
              "splices; all pairwise nonce/ciphertext splices; garbage; 2000 (20000) further issuances for nonce "
              "distinctness, sequentially and from 8 goroutines; 16 goroutines checking the tokens of 8 identities "
              "concurrently for 250 ms (3 s) — every accepted check returns the identity its own token was issued "
-             "for; the concurrent part again in a binary built with the Go race detector.",
+             "for; the concurrent part again in a binary built with the Go race detector. Round 6: material appended / prepended to either FIELD of a valid token (base64, another token's field, padding, non-base64 text); accepted_only_if_issued on the decoded fields.",
         trusted=["AES-GCM behaves as an ideal AEAD (unforgeability) and crypto/rand never repeats a 96-bit nonce: "
                  "hypotheses of the theorems, observed only", T_GO + ": encoding/base64 (modelled), strconv (modelled)"],
         partial=["nonce distinctness is a probabilistic fact about crypto/rand: observed over the run"],
@@ -224,7 +224,7 @@ PROPS = {
              "spellings, extra fields); 6 (40) agents x 60 (300) writes of 51 passwords (dictionary "
              "words, user-name derived, strong, 257..400-byte weak runs, and transformation-sensitive ones: a weak body with a dictionary word "
              "straddling byte 8..128, a weak run followed by a strong tail, white-space / case / NUL variants) through "
-             "10 write paths.",
+             "10 write paths. Round 5/6: a sweep of agents over every transformation-sensitive password x kind x borderline threshold; the CLI takes the policy from flags, from the environment, or from both (lax environment); condition_accepted_iff_wellformed on the real constructor.",
         trusted=["zxcvbn-go's estimate (score, entropy, crack time) is a parameter of the model", T_CRYPTO],
     ),
     "C18": dict(
@@ -238,7 +238,7 @@ PROPS = {
                    "queues and waiting clients untouched) and every real SIGHUP scenario is compared with the model.",
         rule="Documents derived from valid ones by 0-3 mutations: field deletion, duplication, type change, unknown keys at "
              "three levels, numeric edge values (0,1,31,32,255,256,2^32-1,2^32,2^64-1,2^64,-1,1.5,strings,lists,maps), "
-             "both/no algorithm, HMAC key variants, duplicate ids and top-level keys, default 0/missing/undefined.",
+             "both/no algorithm, HMAC key variants, duplicate ids and top-level keys, default 0/missing/undefined. Round 4/6: reload scenarios without a hooks directory and with up to seven signals; numeric edges for narrow fields (multiples of 256 for threads), mostly one fault per generated document.",
         trusted=["yaml.v3 (KnownFields) decides decodability: modelled as an interface", T_CRYPTO],
         partial=["the reload step is a model of its own (Model/Reload.lean: the live configuration is replaced as a whole, only "
                  "when the file loaded and its directory passed the check; reload_all_or_nothing, reload_no_mixture, "
@@ -280,7 +280,7 @@ PROPS = {
              "realm-suffixed forms of existing names with the BASE user's password; 700 (6000) credential pairs over 32 names (existing users incl. names with '@', 255/256/257-byte passwords, "
              "case/space variants, path aliases, bind-name forms) x right password / near misses (case, trim, truncation, "
              "NUL, up to the first colon) / another user's password / empty / random bytes; 12 users with passwords "
-             "special in one transport (':' , non-BMP, JSON escapes, whitespace, NUL, invalid UTF-8).",
+             "special in one transport (':' , non-BMP, JSON escapes, whitespace, NUL, invalid UTF-8). Round 5/6: a user's administrator flag toggled while four workers log her in through every frontend; every request method, unrelated headers, the full CORS-preflight shape and other Authorization schemes on /basic-auth.",
         trusted=["encoding/json, net/http (BasicAuth parsing), glauth/ldap BER decoding, urfave/cli are transports "
                  "trusted to be identity on their domains (tested, not proved)", T_CRYPTO],
         partial=["listener combinations (TLS, socket activation) of the running binary are not enumerated"],
@@ -297,7 +297,7 @@ PROPS = {
         rule="Connections to a real sasl.NewServer: encoder output, truncations, trailing bytes, over-long length "
              "fields, garbage, empty login/password, bit flips, doubled requests; random fragmentations with pauses, "
              "half-close or full close; callback outcomes ok/deny/error with message lengths 0..3, 252..257, "
-             "65530..65540 and arbitrary bytes; 64 concurrent connections with distinct logins.",
+             "65530..65540 and arbitrary bytes; 64 concurrent connections with distinct logins. Round 5: callbacks that take 7 s (35 s) and clients that pause that long inside a request run beside the batches; clients carry a write deadline.",
         trusted=[T_GO + ": net (unix sockets), bufio.Scanner (modelled)", "Linux-PAM itself is replaced by stub headers"],
         partial=["a client that stalls without closing keeps its handler blocked (no deadline in the code): streams are "
                  "taken to be finite", "non-interference between connections is observed (distinct logins, concurrent "
@@ -341,7 +341,7 @@ PROPS = {
              "252..4000 bytes (announced length = body, 256, 257, 258, 65535) under the option sets that log the reply; a "
              "signal interrupting the wait for the reply (before any byte / between header and body, then answer, "
              "silence, close or reset), signals every 150 ms for 6 s during silence (the call must still end: law on the "
-             "elapsed time, bound 5 s for a 1 s timeout); a fifth of all cases entered with a stale EINTR in the caller's errno.",
+             "elapsed time, bound 5 s for a 1 s timeout); a fifth of all cases entered with a stale EINTR in the caller's errno. Round 5/6: printf directives in every logged datum (reply, user name, module argument); values of the timeout option that must be ignored or are small.",
         trusted=["C compiler and libc; Linux-PAM replaced by stub headers (pam_get_user/pam_get_item/pam_prompt)",
                  "ASan/UBSan as the memory-error oracle"],
         partial=["memory safety and wall-clock bounds are run-time facts: observed with ASan/UBSan and the harness "
@@ -416,7 +416,7 @@ PROPS = {
              "is full (their upgrade requests are dropped) and the idle logins afterwards must still upgrade; in half of the "
              "remote-mode agents the master's front end answers 503 to fourteen upgrade requests first and the idle "
              "logins afterwards must get the master's records upgraded; "
-             "digests recomputed with x/crypto.",
+             "digests recomputed with x/crypto. Round 4/5/6: work area on another file system, staged schedules (v11s), a parameter set with the same numbers under another id.",
         trusted=[T_CRYPTO, T_GO, "zxcvbn-go"],
         partial=["'on an otherwise idle agent the rewrite does happen' is observed with a 400 ms wait (scheduling), not proved"],
     ),
@@ -435,7 +435,7 @@ PROPS = {
              "each decoded under several fragmentations (whole, 1-byte reads, random cuts with zero-length "
              "reads, runs of 99/100/101/150 zero-length reads at the start, inside a length prefix, inside a field, "
              "at the end, EOF with the last data or separate); a sixth of the encodes are preceded by an encode of another "
-             "message into a writer that breaks after 0-5 bytes (the output may not depend on it).",
+             "message into a writer that breaks after 0-5 bytes (the output may not depend on it). Round 5: the wire format stated on the encoders' own bytes (wire_format_request / wire_format_response).",
         trusted=[T_GO + ": bufio.Scanner (modelled explicitly in Model/Sasl.lean: decodeScan)"],
         assumptions=["streams are finite and end in EOF"],
     ),
